@@ -5,7 +5,7 @@ set -e
 HERE="$(cd "$(dirname "$0")" && pwd)"
 VENV="$HERE/.venv"
 STAMP="$VENV/.verif-ok"
-if [ -f "$STAMP" ] && "$VENV/bin/python" -c "import crosshair, z3, aioftp" 2>/dev/null; then
+if [ -f "$STAMP" ] && env -u PYTHONPATH "$VENV/bin/python" -c "import crosshair, z3, aioftp" 2>/dev/null; then
     exit 0
 fi
 # several checks may start at once on a fresh restore: serialise the build
@@ -20,5 +20,5 @@ SP="$("$VENV/bin/python" -c 'import sysconfig; print(sysconfig.get_paths()["pure
 printf '%s\n' "import site; site.addsitedir('/venv/lib/python3.12/site-packages')" > "$SP/zz_repo_overlay.pth"
 PIP_NO_INDEX=1 "$VENV/bin/python" -m pip install --quiet --no-index --find-links /opt/veriftools/wheels \
     crosshair-tool z3-solver cvc5 jsonschema >/dev/null
-"$VENV/bin/python" -c "import crosshair, z3, aioftp, sys; assert aioftp.__file__.startswith('/repo/'), aioftp.__file__"
+env -u PYTHONPATH "$VENV/bin/python" -c "import crosshair, z3, aioftp, sys; assert aioftp.__file__.startswith('/repo/'), aioftp.__file__"
 touch "$STAMP"
